@@ -143,7 +143,7 @@ def run(replay=None):
         m2out, _ = common.run_cases_sharded(exe_m, stage2)
         M2 = parse_out(m2out)
 
-    stats = dict(programs=len(progs), pushes=0, pushes_exact=0, shortened=0, kept_both=0,
+    stats = dict(programs=len(progs), getbase_points=0, getbase_queries=0, pushes=0, pushes_exact=0, shortened=0, kept_both=0,
                  oracle_points=0, skipped_timeouts=len(skipped))
     corr_bad = []
     nontrivial = set()
@@ -167,6 +167,12 @@ def run(replay=None):
                 stats["kept_both"] += 1
         for cmd in [p.qpush] + [c for _, c in p.ppts]:
             for l in H.get((p.cid, cmd), []):
+                if l.startswith("GV "):
+                    f = dict(x.split("=") for x in l.split()[1:3])
+                    stats["getbase_points"] += int(f["pts"])
+                    if int(f["bad"]):
+                        ck.violation("getbase", "the tape returned by Tape::getBase disagrees with the full expression at the query",
+                                     {"program": p.text(), "detail": l})
                 if l.startswith("PV "):
                     f = dict(x.split("=") for x in l.split()[1:3])
                     stats["oracle_points"] += int(f["pts"])
@@ -180,6 +186,28 @@ def run(replay=None):
         if len(samples) < 2 and exp:
             samples.append({"program": p.lines[-4:], "push_input": lines[0][:200], "push_result": exp[0][:200]})
 
+    # stage 2b: Tape::getBase against Eval/GetBase.v on the implementation's own chain
+    gb_cases, gb_expect = [], {}
+    for p in progs:
+        out = H.get((p.cid, p.qpush), [])
+        gl = [l for l in out if l.startswith("GL ")]
+        gp = [l for l in out if l.startswith("GP")]
+        gr = [l for l in out if l.startswith("GR")]
+        if not (gl and gp and gr):
+            continue
+        pts = [x.split(":") for x in gp[0].split()[1:]]
+        rgs = [x.split(":") for x in gr[0].split()[1:]]
+        gb_cases.append(f"case {p.cid}\ngetbase {gl[0][3:]} P " + " ".join(a for a, _ in pts) + " R " + " ".join(a for a, _ in rgs) + "\nend\n")
+        gb_expect[p.cid] = "GB P " + " ".join(i for _, i in pts) + " R " + " ".join(i for _, i in rgs)
+    if ok_d and gb_cases:
+        gout, _ = common.run_cases_sharded(exe_m, gb_cases)
+        G = parse_out(gout)
+        byid = {p.cid: p for p in progs}
+        for cid, want in gb_expect.items():
+            got = (G.get((cid, 1)) or [None])[0]
+            stats["getbase_queries"] += len(want.split()) - 3
+            if got != want:
+                corr_bad.append((byid[cid], "getbase", want, got))
     if corr_bad:
         p, inp, e, m = corr_bad[0]
         ck.violation("correspondence", "model Tape::push and implementation produce different tapes",
